@@ -235,6 +235,28 @@ def main(argv=None):
             print(r.stdout[-2000:])
             return 3
 
+    # 1c. Lean re-check of the mathematics lemmas this property instantiates (thorough tier; quick trusts the committed text)
+    lean = None
+    if a.tier == 'thorough' and not a.only and getattr(mod, 'USES_LEAN_LEMMAS', None):
+        import subprocess
+        try:
+            r = subprocess.run(['bash', os.path.join(ROOT, 'selftest', 'lean_check.sh')], capture_output=True, text=True, timeout=5400)
+            lean = dict(lemmas=list(mod.USES_LEAN_LEMMAS), exit=r.returncode, output=r.stdout.strip().splitlines()[-4:])
+            if r.returncode != 0:
+                print('CHECKER-ERROR lean re-check of the lemma files failed: %s' % r.stdout[-800:])
+                return 3
+        except subprocess.TimeoutExpired:
+            lean = dict(lemmas=list(mod.USES_LEAN_LEMMAS), exit=None, output=['lean_check.sh did not finish within 90 min (machine load); committed text trusted in this run'])
+
+    # 1d. mechanical scan of the contract sources for assumption sites (vc.assume / assumed lemma instances), reported, not judged
+    import glob as _glob
+    import re as _re
+    assume_sites = []
+    for f in sorted(_glob.glob(os.path.join(ROOT, 'contracts', prop.lower() + '*.py'))):
+        for i, line in enumerate(open(f), 1):
+            if _re.search(r'\.assume\(', line) and not line.lstrip().startswith('#'):
+                assume_sites.append('%s:%d' % (os.path.relpath(f, ROOT), i))
+
     # 2. contracts
     idxs = [i for i, c in enumerate(mod.CONTRACTS) if not a.only or a.only in c.cname]
     jobs = [(modname, i, a.tier, seed, a.repo) for i in idxs]
@@ -377,7 +399,8 @@ def main(argv=None):
             bounded=bounded, evaluations=max(bcases + n_obl, 1), distinct_nontrivial=max(bnontriv + n_dis, 2) if (bnontriv + n_dis) >= 2 else bnontriv + n_dis,
             rule='obligations: one per (function, path, clause) generated from the real source in this run; bounded cases: see bounded[*].bound / rule',
             assumption_sanity_tests=dict(run=len(sanity), passed=sum(1 for _, ok in sanity if ok), names=[n for n, _ in sanity]),
-            engine_selfcheck=selfcheck,
+            engine_selfcheck=selfcheck, lean_recheck=lean,
+            assume_sites=dict(count=len(assume_sites), where=assume_sites[:400], note='every vc.assume( in this property\'s contract sources: library-spec facts at call sites, definitional extensions, explicit instances of verified or Lean-certified lemmas; listed mechanically, see TRUSTED_BASE for what they rest on'),
             vacuity=dict(covers=sum(o['covers'] for o in outs), covers_sat=sum(o['covers_sat'] for o in outs)),
             not_proved_clauses=list(getattr(mod, 'NOT_PROVED', [])),
             degraded=degraded, known_findings=sorted({k['id'] for k, _ in known_hits}), fixed=fixed,
